@@ -20,3 +20,7 @@ pub mod c03_amp;
 pub mod c10_slice;
 #[cfg(all(kani, feature = "c20"))]
 pub mod c20_window;
+#[cfg(all(kani, feature = "c11"))]
+pub mod c11_rms;
+#[cfg(all(kani, feature = "c11n"))]
+pub mod c11_nostd;
